@@ -75,14 +75,16 @@ Definition jrun (c : scfg) (o : oracle) (h : list pop) : state * pstate := fold_
 Fixpoint pol_agree (c : scfg) (o : oracle) (s : state) (p : pstate) (tr : list (pop * step_obs * pol_obs)) : bool * bool * bool :=
   match tr with
   | [] => (true, true, true)
-  | (x, _, ob) :: r =>
+  | (x, sob, ob) :: r =>
       let '(s1, p1) :=
         match x with
         | POp y => let '(s1, ot) := step c o s y in (s1, fold_left p_apply (o_updates ot) p)
         | PReg k => let '(s1, ot) := step c o s (ORegister (consumer_type k)) in (s1, p_register p k (o_updates ot))
         end in
       let '(a, b, d) := pol_agree c o s1 p1 r in
-      (cb_agrees (p_cb p1) (po_cb ob) && a, rt_agrees (p_rt p1) (po_rt ob) && b, lim_agrees (p_lim p1) (po_lim ob) && d)
+      (* a consumer only reads what it is handed: with consumers registered the cache is still the state machine's *)
+      let ca := cache_agrees s1 (so_snap sob) in
+      (ca && cb_agrees (p_cb p1) (po_cb ob) && a, ca && rt_agrees (p_rt p1) (po_rt ob) && b, ca && lim_agrees (p_lim p1) (po_lim ob) && d)
   end.
 
 (** ---- specifications, computed from the history and the implementation's own snapshots ---- *)
